@@ -268,10 +268,16 @@ func checkC10(raw json.RawMessage) (ev.Result, error) {
 		res.Classes = append(res.Classes, "policy-with-log-action")
 	}
 	if c.PriorRefused {
-		if pl := rr.Find(2, "load"); len(pl) != 1 || pl[0].Nil || !strings.Contains(pl[0].Err, "invalid argument") {
-			return res, ev.Inconclusivef("the earlier oversize load was not refused with EINVAL: %+v", pl)
+		pl := rr.Find(2, "load")
+		if len(pl) != 1 || pl[0].Nil {
+			return res, ev.Inconclusivef("the earlier oversize load was not refused: %+v", pl)
 		}
-		res.Classes = append(res.Classes, "earlier-thread-sync-load-refused-with-EINVAL")
+		if strings.Contains(pl[0].Err, "invalid argument") {
+			res.Classes = append(res.Classes, "earlier-thread-sync-load-refused-with-EINVAL")
+		} else {
+			// (a loader that refuses oversize programs itself never asks the kernel: the history is then an ordinary one)
+			res.Classes = append(res.Classes, "earlier-thread-sync-load-refused-by-the-library")
+		}
 	}
 	if c.EnosysFault {
 		if oe := rr.Find(2, "outer-enosys"); len(oe) != 1 || oe[0].Err != "" {
